@@ -22,8 +22,10 @@ CONDITIONS = [
 ] + shards("handover", "c06.py", "h_handover", {"chunk": [0, 1, 2, 3, 4, 5]}, timeout=300,
            what="real limit: ASCII run of every length 0..160, then a 2-/3-/4-octet character and a tail: <= 75 octets, one added space, exact unfolding",
            bound="prefix length 0..160 x 6 boundary code points x 3 tails"
-) + shards("fold-unfold", "c06.py", "h_fold_unfold", {"limit": [3, 4, 5, 6, 7], "a": list(range(10))}, timeout=300, thorough_timeout=1500,
-           what="real foldline + real unfold regex: octet limit, valid UTF-8 per line, one added space, exact restore", bound="<= 4 (thorough 5) characters, first pinned per shard, over {a, SP, TAB, CR, U+0080, U+07FF, U+0800, U+FFFF, U+10000, U+1F600}"
+) + shards("fold-unfold", "c06.py", "h_fold_unfold", {"limit": [3, 4, 5, 6, 7], "a": list(range(10))}, timeout=300,
+           what="real foldline + real unfold regex: octet limit, valid UTF-8 per line, one added space, exact restore", bound="<= 4 characters, first pinned per shard, over {a, SP, TAB, CR, U+0080, U+07FF, U+0800, U+FFFF, U+10000, U+1F600}"
+) + shards("fold-unfold5", "c06.py", "h_fold_unfold", {"limit": [3, 5], "a": list(range(10)), "nmax": [5]}, timeout=1800, tiers=("thorough",),
+           what="real foldline + real unfold regex: octet limit, valid UTF-8 per line, one added space, exact restore", bound="<= 5 characters, first pinned per shard, same 10-character alphabet, limits 3 and 5"
 ) + [X("contentline", "c06.py", "h_contentline", timeout=300, params={"n": n, "nm": nm}, what="Contentline.to_ical/from_ical and Contentlines at the real limit",
        bound="name %d of (DESCRIPTION, X, ATTENDEE;CN=e-acute); value = %d repetitions of a symbolic character pair over 10 boundary code points" % (nm, n))
    for nm, ns in ((0, (0, 1, 17, 18, 19, 24, 25, 31, 32, 36, 37, 38, 63, 80)), (1, (8, 9, 10, 11, 12, 13, 36, 37)), (2, (6, 7, 8, 9, 30))) for n in ns]
